@@ -24,6 +24,7 @@
    C19_tree: the parser returns exactly [tree_of g].  C19_tree_decorated: the same with ignored
    lines (blank, comment, constant: any line the classifier skips) anywhere between field lines,
    including a trailing newline.  C19_tree_lines: the common generalisation. *)
+From Mcap Require ConstsTie. (* regenerated ties to /repo's source that this property's model relies on *)
 From Coq Require Import List NArith ZArith Bool String.
 From Coq.Strings Require Import Byte.
 From Mcap Require Import Bytes GoSem Ros1Msg Ros1MsgFacts.
